@@ -220,6 +220,7 @@ func (fv *FuncVerifier) evalCall(st *State, env *Env, call *ast.CallExpr) []Term
 		} else {
 			fv.havocAll(st)
 		}
+		fv.forkPanic(st, env, "callback "+exprString(fun)+" panics", call.Lparen)
 	}
 	var res []Term
 	if sig != nil {
@@ -246,6 +247,17 @@ func (fv *FuncVerifier) evalCall(st *State, env *Env, call *ast.CallExpr) []Term
 	}
 	_ = w
 	return res
+}
+
+// forkPanic records an exceptional exit: code we call here may panic instead of returning. The state (after the
+// callee's effects) is kept; at the function's end its pending deferred calls run and the `onpanic` clauses of the
+// function under verification are checked on it. Only done when that function has an `onpanic` clause.
+func (fv *FuncVerifier) forkPanic(st *State, env *Env, why string, site token.Pos) {
+	if env.spec || fv.curLit != 0 || fv.fn.Contr == nil || !fv.fn.Contr.Has("onpanic", 0) || st.heapParams != nil {
+		return
+	}
+	ps := st.Clone()
+	fv.panicStates = append(fv.panicStates, panicExit{st: ps, why: why, site: site})
 }
 
 // preservesOf reads `preserves <key prefix> except k1, k2` of a contract: the heap fields a call leaves untouched
@@ -1139,6 +1151,14 @@ func (fv *FuncVerifier) callRepoFunc(st *State, env *Env, call *ast.CallExpr, fi
 	} else if !c.Has("pure", 0) || len(c.Get("ensures", 0, 0)) == 0 {
 		// result not pinned down by determinism
 	}
+	// the callee may panic instead of returning: its effects happened, its `onpanic` clauses hold (no result)
+	if onp := c.Get("onpanic", 0, 0); len(onp) > 0 && !env.spec && fv.curLit == 0 && fv.fn.Contr != nil && fv.fn.Contr.Has("onpanic", 0) && st.heapParams == nil {
+		ps := st.Clone()
+		for _, cl := range onp {
+			ps.Assume(fv.evalClauseFor(fi, ps, cl, binds, nil, pre, preBinds))
+		}
+		fv.panicStates = append(fv.panicStates, panicExit{st: ps, why: fi.Key + " panics", site: call.Lparen})
+	}
 	names := map[string]Term{}
 	fv.bindResultNames(fi, res, names, binds)
 	for _, cl := range c.Get("ensures", 0, 0) {
@@ -1652,6 +1672,7 @@ func (fv *FuncVerifier) callUnknown(st *State, env *Env, call *ast.CallExpr, fn 
 				fv.nondet = append(fv.nondet, "user code "+ic.Key)
 				pfx, exc := preservesOf(ic)
 				fv.havocAllExcept(st, pfx, exc)
+				fv.forkPanic(st, env, "user code "+ic.Key+" panics", call.Lparen)
 				res := fv.freshResults(st, sig)
 				obj := Null
 				if len(args) > 1 {
@@ -1732,6 +1753,7 @@ func (fv *FuncVerifier) callUnknown(st *State, env *Env, call *ast.CallExpr, fn 
 			pfx, exc := preservesOf(ic)
 			pre := fv.heapGet(st, "$ghost:alloc", "(Array Ref Bool)")
 			fv.havocAllExcept(st, pfx, exc)
+			fv.forkPanic(st, env, "user code "+ic.Key+" panics", call.Lparen)
 			if ic.Has("fresh-result", 0) {
 				// ASSUMED contract of user code: the (first) result is a non-nil object allocated by the call
 				res := fv.freshResults(st, sig)
